@@ -27,6 +27,8 @@ _CLS = {}
 LOG = []
 BOUND = []      # ids of the objects whose overridden _on_bound ran
 OBJ_IDS = {}
+_KEEP = []
+_EXT = [None]   # forest cases: the second tree (pg.Ref items of the first tree point into it)
 
 
 def classes():
@@ -91,6 +93,22 @@ def classes():
         BOUND.append(OBJ_IDS.get(id(self)))
         super()._on_bound()
 
+    class C09Chk(pg.Object):          # fields that REJECT values: a fixed nested schema with a bounded Int, an object field
+      allow_symbolic_assignment = True
+      opt: pg.typing.Dict([('lr', pg.typing.Any(default=1)), ('n', pg.typing.Int(min_value=0, default=0))])
+      o: pg.typing.Object(C09Inner).set_default(C09Inner())
+      x: pg.typing.Any(default=None)
+
+    class C09ChkSub(C09Chk):
+      def _on_change(self, field_updates):
+        on_event(OBJ_IDS.get(id(self)), field_updates)
+        return super()._on_change(field_updates)
+
+      def _on_bound(self):
+        BOUND.append(OBJ_IDS.get(id(self)))
+        super()._on_bound()
+
+    _CLS.update(chk=C09Chk, chksub=C09ChkSub)
     _CLS.update(sub=C09Sub, plain=C09Plain, mid=C09Mid, req=C09Req, pure=C09Pure, inner=C09Inner,
                 innersub=C09InnerSub, defsub=C09DefSub)
     _CLS['def'] = C09Def
@@ -336,21 +354,25 @@ def build(t):
     return t
   nid = t.get('id', 0)
   cb = None
+  if t.get('ref') is not None:
+    return pg.Ref(navigate(_EXT[0], t['ref']))      # a reference to a node of the OTHER tree
   if t.get('sub') and t['k'] != 'obj':
     cb = lambda updates, _id=nid: on_event(_id, updates)
   if t['k'] == 'list':
     v = pg.List([build(c) for _, c in t['items']], onchange_callback=cb)
   elif t['k'] == 'dict':
     v = pg.Dict({k: build(c) for k, c in t['items']}, onchange_callback=cb)
-  elif t['k'] in ('def', 'inner'):
+  elif t['k'] in ('def', 'inner', 'chk'):
     v = cls[t['k'] + ('sub' if t.get('sub') else '')](**{k: build(c) for k, c in t['items']})
     OBJ_IDS[id(v)] = nid
+    _KEEP.append(v)        # alive until the case ends: a Python id is never reused within a case
   elif t['k'] == 'req':
     v = cls['req'].partial(**{k: build(c) for k, c in t['items'] if not (isinstance(c, dict) and c.get('missing'))})
   else:
     # non-subscribing objects alternate between the base class and the intermediate class
     v = cls['sub' if t.get('sub') else ('plain' if nid % 2 else 'mid')](**{k: build(c) for k, c in t['items']})
     OBJ_IDS[id(v)] = nid
+    _KEEP.append(v)        # alive until the case ends: a Python id is never reused within a case
   return v
 
 
@@ -450,11 +472,16 @@ _E_DEF = {'k': 'dict', 'c': 0, 'items': [['u', 2], ['w', None]]}
 _A_DEF = {'k': 'dict', 'c': 0, 'items': [['k', 1], ['j', None], ['e', _E_DEF]]}
 _D_DEF = {'k': 'dict', 'c': 0, 'items': [['a', _A_DEF], ['b', 0]]}
 _INNER_DEF = {'k': 'obj', 'c': 2, 'items': [['k', 1], ['m', None]]}
+_OPT_DEF = {'k': 'dict', 'c': 0, 'items': [['lr', 1], ['n', 0]]}
+# what the fields of the `chk` classes accept (model: `Rules`): [class number, field, type]
+_OPT_TY = {'dict': [['lr', 'any'], ['n', {'int': 0}]]}
+RULES = [[c_, 'opt', _OPT_TY] for c_ in (5, 15)] + [[c_, 'o', {'obj': [2, 12]}] for c_ in (5, 15)]
 CLASS_SPECS = {
     'obj': (1, [['x', {'d': None}], ['y', {'d': None}], ['z', {'d': None}]]),
     'inner': (2, [['k', {'d': 1}], ['m', {'d': None}]]),
     'def': (3, [['d', {'d': _D_DEF}], ['o', {'d': _INNER_DEF}], ['x', {'d': None}]]),
     'req': (4, [['r', {'req': True}], ['x', {'d': None}]]),
+    'chk': (5, [['opt', {'d': _OPT_DEF}], ['o', {'d': _INNER_DEF}], ['x', {'d': None}]]),
 }
 
 
@@ -465,15 +492,25 @@ def annotate(t):
     return t
   out = dict(t)
   out['items'] = [[k, annotate(c)] for k, c in t['items']]
+  if t.get('bind') == 'opt':
+    out = _bind(out, _OPT_DEF)          # a value for the field `opt`: bound to its schema once accepted
+  if t.get('ref') is not None:
+    out.pop('ref')
+    out.update(k='obj', c=9, sch=[], items=[])      # pg.Ref: an object of a class without symbolic fields
+    return out
   if t['k'] in CLASS_SPECS:
     c, sch = CLASS_SPECS[t['k']]
-    if t.get('sub') and t['k'] in ('def', 'inner'):
+    if t.get('sub') and t['k'] in ('def', 'inner', 'chk'):
       c += 10          # the subscribing variant is a subclass: another class than the one of the default
     out.update(k='obj', c=c, sch=sch)
     if t['k'] == 'def':
       for it in out['items']:
         if it[0] == 'd':
           it[1] = _bind(it[1], _D_DEF)
+    if t['k'] == 'chk':
+      for it in out['items']:
+        if it[0] == 'opt':
+          it[1] = _bind(it[1], _OPT_DEF)
   return out
 
 
@@ -608,6 +645,53 @@ def on_event(rid, updates):
   finally:
     RSTATE['stack'].pop()
     RSTATE['depth'] -= 1
+
+
+def ref_node(path, nid=0):
+  return {'k': 'obj', 'ref': list(path), 'id': nid, 'sub': False, 'items': []}
+
+
+def has_ref(t):
+  return any(n.get('ref') is not None for _, n in all_nodes(t))
+
+
+def bad_links(root):
+  """Paths of the symbolic nodes whose sym_parent / sym_path is not what their place in the tree says."""
+  import pyglove as pg
+  out = []
+  def walk(v, path, parent):
+    if not isinstance(v, pg.Symbolic):
+      return
+    if v.sym_parent is not parent or (parent is not None and list(v.sym_path.keys) != list(path)):
+      out.append(list(path))
+    for k, c in v.sym_items():
+      walk(c, path + (k,), v)
+  walk(root, (), None)
+  return out
+
+
+def stale_facts(root):
+  """Reads every fact of every node and compares with a fresh computation on a copy (JSON round trip;
+  a deep clone when the tree holds pg.Ref items, which JSON cannot carry). -> [[path, [fact names]]]"""
+  import pyglove as pg
+  got = read_all(root)
+  if has_placeholder(root):
+    return []
+  if any(isinstance(n, pg.Ref) for _, n in sym_nodes(root)):
+    want = [(p, facts(n)) for p, n in sym_nodes(root.clone(deep=True))]
+  else:
+    want = recomputed(root)
+  wmap = {json.dumps(p): f for p, f in want}
+  stale = []
+  for p, f in got:
+    w = wmap.get(json.dumps(p))
+    if w is None:
+      stale.append([p, ['<node missing in copy>']])
+    else:
+      bad = sorted(k for k in f if f[k] != w[k])
+      if bad:
+        stale.append([p, bad])
+  return stale
 
 
 # ------------------------------------------------------------------------------------------
@@ -756,7 +840,7 @@ class Gen:
     if name in ('clear', 'reverse', 'popitem', 'sort'):
       return {'name': name}
     # rebind: 1-4 pairs below the receiver, on pairwise unrelated locations
-    parents = all_nodes(node)
+    parents = [pn for pn in all_nodes(node) if pn[1].get('ref') is None]
     pairs, seen = [], []
     for _ in range(r.choice([1, 1, 2, 2, 3, 4])):
       ppath, p = r.choice(parents)
@@ -863,6 +947,17 @@ class C09(Prop):
           'lists with callbacks; 400 histories with re-entrant handlers (subscribing nodes that answer every event '
           'with a call of their own on themselves / a descendant / an ancestor, nesting bound 1-3; log entries are '
           'tagged with the call they belong to and every call is judged on its own). '
+          '250 histories over TWO trees and 1-2 worker threads besides the harness thread: threads enter / leave '
+          'notify_on_change(v) and any thread mutates a node of either tree -- whether the call notifies is decided by '
+          'the scopes of the calling thread alone; 350 histories in which Lists / Dicts hold pg.Ref items pointing '
+          'into the second tree, the items being removed / replaced (clear, pop, del, popitem, assignment, slice calls, '
+          'rebind, update, *= 0, reverse), then the referenced tree is mutated: payloads carry the stored Ref, the '
+          'other tree keeps contents, links (sym_parent / sym_path) and fresh memos, its ancestors are notified; '
+          '400 histories of writes that a value spec REFUSES (KeyError: key unknown to a nested schema; TypeError: atom / '
+          'list / object of another class / str for int; ValueError: int below min_value, None) on fields holding a '
+          'schema-bound Dict or an object, by assignment or one-pair rebind from the owner or an ancestor, followed by '
+          'mutations inside the value that stayed in place (events at every subscribing ancestor, memo freshness) and '
+          'accepted replacements. '
           'Object classes form the hierarchy Plain -> Mid -> Sub (only Sub overrides _on_change) and are created '
           'afresh for every case. A second, oracle-only stream inserts partial objects, pure-symbolic and non-deterministic values. '
           'Non-trivial: some node on the path from the root to a written location subscribes; distinct by JSON.')
@@ -874,7 +969,9 @@ class C09(Prop):
       'two memos per node (nondefault, missing) against the value specs of the harness classes (fields with '
       'defaults incl. container / object defaults, required fields, schema-bound nested Dicts); the memo of a '
       'schema-bound node is modelled as a flattened snapshot; _sym_puresymbolic / is_deterministic are oracle-only; '
-      'writes whose value a spec would transform or reject are not generated (C03); a nested call issued by a handler '
+      'writes whose value a spec would transform are not generated (C03); writes a spec REJECTS are generated for '
+      'the fields `opt` (fixed Dict schema with an Int(min_value=0)) and `o` (Object(C09Inner)) of the class C09Chk only: '
+      'the model (rejection / stepV) is told what these two fields accept and says which error class results; a nested call issued by a handler '
       'is modelled as running on the tree with the outer call completely applied (memos reset, placeholders dropped): '
       'handlers that react are not combined with deleting rebinds; nested calls put atoms at leaf locations; '
       'notify_parents=False, _on_parent_change / '
@@ -883,6 +980,12 @@ class C09(Prop):
       'nor modelled',
       'THE MODEL MIRRORS THE TREE WITH fixes/C09-F55.patch (clear / popitem / sort / reverse report what they removed '
       '/ moved) AND fixes/C09-F112.patch (del l[-1] reports the position) APPLIED',
+      'two trees / threads: real threading.Thread workers driven one step at a time (deterministic schedule, no '
+      'preemption inside a call); the model keeps one stack of notify_on_change scopes per thread; a pg.Ref item is '
+      'modelled as a field-less object (class 9), the tree it points into is the second tree of the case; holders of '
+      'pg.Ref items and their ancestors are Dicts / Lists (observation F380: the flattened sym_nondefault() of an '
+      'OBJECT with a Dict-valued field walks through the references); "fresh computation" for a tree holding pg.Ref '
+      'items is a deep clone (JSON cannot carry them)',
       'position-shifting list calls: the contract is read on the edit (removed item -> MISSING at its former position, '
       'MISSING -> inserted item at its new position, old -> new for replaced items)',
   ]
@@ -905,6 +1008,12 @@ class C09(Prop):
     for c in self.facts_cases(rng, 150 if tier == 'quick' else 3000):
       yield c
     for c in self.detached_cases(rng, 200 if tier == 'quick' else 4000):
+      yield c
+    for c in self.thread_switch_cases(rng, 250 if tier == 'quick' else 5000):
+      yield c
+    for c in self.ref_item_cases(rng, 350 if tier == 'quick' else 7000):
+      yield c
+    for c in self.rejected_write_cases(rng, 400 if tier == 'quick' else 8000):
       yield c
 
   def read_cases(self, rng, n):
@@ -1227,11 +1336,250 @@ class C09(Prop):
           {'recv': path[:-1], 'notify': True, 'call': c1, 'keep': path},
           {'recv': ipath, 'notify': True, 'call': c2, 'detached': 0}]}
 
+  def _forest_call(self, g, rng, shadows, which, path, node, notify_eff, t=None, wrapper=True):
+    """One generated call on `node` of tree `which`, mirrored on the shadow. -> step | None"""
+    c = g.call(shadows[which], path, node)
+    if c['name'] == 'setslice' and c.get('step') in (None, 1) and not notify_eff:
+      size = len(range(*slice(c['a'], c['b'], 1).indices(len(node['items']))))
+      if len(c['vs']) < size:
+        return None          # silent shrinking slice assignment leaves placeholders (C02-F03)
+    step = {'recv': path, 'notify': wrapper, 'call': c}
+    if t is not None:
+      step['t'] = t
+    if which == 'ext':
+      step['in'] = 'ext'
+    mirror(shadows[which], json.loads(json.dumps(dict(step, notify=notify_eff))))
+    return step
+
+  def thread_switch_cases(self, rng, n):
+    """Two trees, 1-2 worker threads besides the harness thread. Threads enter / leave
+    `notify_on_change(v)` (mostly False) and, in between, any thread mutates a node of either tree:
+    whether the call notifies is decided by the scopes of the thread that makes it."""
+    g = Gen(rng)
+    for _ in range(n):
+      g.next_id = 1
+      g.no_obj = rng.chance(0.4)
+      g.deletes = False
+      t = g.tree(rng.randint(1, 2), None, rng.choice([0.6, 1.0]))
+      e = g.tree(rng.randint(1, 2), None, rng.choice([0.6, 1.0]))
+      nthreads = rng.choice([1, 1, 2])
+      shadows = {'tree': json.loads(json.dumps(t)), 'ext': json.loads(json.dumps(e))}
+      stacks = [[] for _ in range(nthreads + 1)]
+      steps = []
+      for _ in range(rng.randint(2, 8)):
+        ti = rng.below(nthreads + 1)
+        if rng.chance(0.4):
+          if rng.chance(0.75) or not stacks[ti]:
+            v = rng.chance(0.25)
+            stacks[ti].append(v)
+            steps.append({'scope': 'enter', 't': ti, 'v': v})
+          else:
+            stacks[ti].pop()
+            steps.append({'scope': 'leave', 't': ti})
+          continue
+        which = rng.choice(['tree', 'ext'])
+        path, node = rng.choice(all_nodes(shadows[which]))
+        wrapper = rng.chance(0.9)
+        eff = wrapper and (stacks[ti][-1] if stacks[ti] else True)
+        step = self._forest_call(g, rng, shadows, which, path, node, eff, ti, wrapper)
+        if step is not None:
+          steps.append(step)
+      if not any('call' in s_ for s_ in steps):
+        continue
+      yield {'tree': t, 'ext': e, 'steps': steps, 'forest': True, 'threads': nthreads}
+
+  def ref_item_cases(self, rng, n):
+    """Lists / dicts of the first tree hold pg.Ref items that point at nodes of the second tree. The
+    items are removed / replaced (clear, pop, del, popitem, item assignment, slice calls, rebind, ...):
+    the events carry the stored Ref, and the referenced tree keeps its links -- what is mutated in it
+    afterwards still reaches its own ancestors and leaves no stale memo there."""
+    g = Gen(rng)
+    made = 0
+    while made < n:
+      g.next_id = 1
+      g.no_obj = rng.chance(0.4)
+      g.deletes = False
+      e = g.tree(rng.randint(1, 3), rng.choice(['dict', 'list', None]), rng.choice([0.6, 1.0]))
+      # the holders and their ancestors are Dicts / Lists: the flattened sym_nondefault() of an OBJECT with a
+      # Dict-valued field walks the evaluated items of that Dict, i.e. through the references (observation F380)
+      g.no_obj = True
+      t = g.tree(rng.randint(1, 2), rng.choice(['dict', 'list']), rng.choice([0.6, 1.0]))
+      enodes = all_nodes(e)
+      holders = []
+      for _ in range(rng.randint(1, 3)):
+        cands = [(p_, n_) for p_, n_ in all_nodes(t) if n_['k'] in ('list', 'dict') and n_.get('ref') is None]
+        hp, h = rng.choice(cands)
+        rp, _ = rng.choice(enodes) if rng.chance(0.3) else rng.choice([pn for pn in enodes if pn[0]] or enodes)
+        r_ = ref_node(rp, g.next_id)
+        g.next_id += 1
+        if h['k'] == 'list':
+          vals = [v for _, v in h['items']]
+          vals.insert(rng.randint(0, len(vals)), r_)
+          h['items'] = [[i, v] for i, v in enumerate(vals)]
+        else:
+          key = rng.choice(DKEYS)
+          h['items'] = [it for it in h['items'] if it[0] != key] + [[key, r_]]
+        holders.append(hp)
+      shadows = {'tree': json.loads(json.dumps(t)), 'ext': json.loads(json.dumps(e))}
+      steps = []
+      for _ in range(rng.randint(1, 3)):
+        # a call on a container that (still) holds a reference, preferably one that removes / replaces it
+        hs = [(p_, n_) for p_, n_ in all_nodes(shadows['tree'])
+              if n_.get('ref') is None and any(is_node(c) and c.get('ref') is not None for _, c in n_['items'])]
+        if not hs:
+          break
+        hp, h = rng.choice(hs)
+        notify = rng.chance(0.85)
+        refs = [k for k, c in h['items'] if is_node(c) and c.get('ref') is not None]
+        k = rng.choice(refs)
+        newv = rng.choice([g.atom(), g.atom(), ref_node(rng.choice(enodes)[0]), g.fresh_tree(1)])
+        if h['k'] == 'list':
+          n_ = len(h['items'])
+          opts = [{'name': 'clear'}, {'name': 'delidx', 'via': 'pop', 'i': k}, {'name': 'delidx', 'via': 'del', 'i': k - n_},
+                  {'name': 'setkey', 'key': k, 'v': newv}, {'name': 'rebind', 'pairs': [[[k], newv]]},
+                  {'name': 'delslice', 'a': k, 'b': k + 1, 'step': None}, {'name': 'delslice', 'a': None, 'b': None, 'step': None},
+                  {'name': 'setslice', 'a': k, 'b': k + 1, 'step': None, 'vs': [newv]},
+                  {'name': 'insert', 'i': 0, 'v': g.atom()}, {'name': 'imul', 'k': 0}]
+          if not any(isinstance(c, str) for _, c in h['items']):
+            opts.append({'name': 'reverse'})
+        else:
+          opts = [{'name': 'clear'}, {'name': 'delkey', 'key': k}, {'name': 'setkey', 'key': k, 'v': newv},
+                  {'name': 'rebind', 'pairs': [[[k], newv]]}, {'name': 'update', 'kvs': [[k, newv]]}]
+          if h['items'][-1][0] == k:
+            opts.append({'name': 'popitem'})
+        if rng.chance(0.8):
+          step = {'recv': hp, 'notify': notify, 'call': rng.choice(opts)}
+          mirror(shadows['tree'], json.loads(json.dumps(step)))
+        else:
+          step = self._forest_call(g, rng, shadows, 'tree', hp, h, notify, None, notify)
+        if step is not None:
+          steps.append(step)
+      # ... then the referenced tree is mutated
+      for _ in range(rng.randint(1, 2)):
+        path, node = rng.choice(all_nodes(shadows['ext']))
+        notify = rng.chance(0.9)
+        step = self._forest_call(g, rng, shadows, 'ext', path, node, notify, None, notify)
+        if step is not None:
+          steps.append(step)
+      if not steps:
+        continue
+      made += 1
+      yield {'tree': t, 'ext': e, 'steps': steps, 'forest': True}
+
+  def rejected_write_cases(self, rng, n):
+    """Writes that a value spec REFUSES -- KeyError (a key the nested schema does not have), TypeError
+    (an atom / a list / an object of another class where a Dict or an object of a class is due, a str
+    where an int is due), ValueError (an int below the minimum, None) -- on fields whose current value
+    is symbolic (a schema-bound Dict, an object), by attribute assignment or a one-pair rebind from the
+    owner or an ancestor, notified or silent; then mutations INSIDE the value that stayed in place: every
+    subscribing ancestor hears of them and no memo is stale. Accepted replacements are mixed in."""
+    g = Gen(rng)
+    ctr = [100]
+    def nid():
+      ctr[0] += 1
+      return ctr[0]
+    def opt_val():
+      return {'k': 'dict', 'id': 0, 'sub': False, 'typed': True, 'bind': 'opt',
+              'items': [['lr', g.atom()], ['n', rng.randint(0, 9)]]}
+    def inner_val():
+      return {'k': 'inner', 'id': nid(), 'sub': rng.chance(0.5), 'typed': True,
+              'items': [['k', g.atom()], ['m', g.atom()]]}
+    def bad_opt():
+      k_ = rng.below(7)
+      d = {'k': 'dict', 'id': 0, 'sub': False, 'items': [['lr', g.atom()], ['n', rng.randint(0, 9)]]}
+      if k_ == 0:
+        d['items'].append([rng.choice(['zz', 'steps']), g.atom()])
+        return d, 'KeyError'
+      if k_ == 1:
+        d['items'][1] = ['stepz', 5]
+        d['items'].append(['n', 1])
+        return d, 'KeyError'
+      if k_ == 2:
+        return rng.choice([5, 'p', fresh('list', [1])]), 'TypeError'
+      if k_ == 3:
+        d['items'][1][1] = rng.choice(['p', 'q'])
+        return d, 'TypeError'
+      if k_ == 4:
+        d['items'][1][1] = -rng.randint(1, 5)
+        return d, 'ValueError'
+      if k_ == 5:
+        return None, 'ValueError'
+      return inner_val(), 'TypeError'
+    def bad_o():
+      k_ = rng.below(4)
+      if k_ == 0:
+        return rng.choice([3, 'p']), 'TypeError'
+      if k_ == 1:
+        return fresh('dict', [['k', 1]]), 'TypeError'
+      if k_ == 2:
+        return {'k': 'obj', 'id': nid(), 'sub': False, 'items': [['x', 1], ['y', None], ['z', None]]}, 'TypeError'
+      return None, 'ValueError'
+    for _ in range(n):
+      g.next_id = 10
+      g.no_obj = False
+      ctr[0] = 100
+      owner = {'k': 'chk', 'id': nid(), 'sub': rng.chance(0.7), 'typed': True,
+               'items': [['opt', dict(opt_val(), bind=None)], ['o', inner_val()],
+                         ['x', g.atom() if rng.chance(0.6) else g.tree(1, None, 0.5)]]}
+      del owner['items'][0][1]['bind']
+      wrap = rng.below(4)
+      if wrap == 0:
+        t, opath = owner, []
+      elif wrap == 1:
+        t, opath = {'k': 'dict', 'id': 1, 'sub': rng.chance(0.7), 'items': [['h', owner], ['c', g.atom()]]}, ['h']
+      elif wrap == 2:
+        t, opath = {'k': 'list', 'id': 1, 'sub': rng.chance(0.7), 'items': [[0, g.atom()], [1, owner]]}, [1]
+      else:
+        mid = {'k': 'dict', 'id': 2, 'sub': rng.chance(0.5), 'items': [['h', owner]]}
+        t, opath = {'k': 'obj', 'id': 1, 'sub': rng.chance(0.7), 'items': [['x', mid], ['y', g.atom()], ['z', None]]}, ['x', 'h']
+      shadow = json.loads(json.dumps(t))
+      steps = []
+      def write(field, v):
+        """An attribute assignment on the owner, or a one-pair rebind from the owner / an ancestor."""
+        how = rng.below(3)
+        if how == 0:
+          return {'recv': opath, 'call': {'name': 'setkey', 'key': field, 'v': v}}
+        cut = rng.randint(0, len(opath)) if how == 2 else len(opath)
+        return {'recv': opath[:cut], 'call': {'name': 'rebind', 'pairs': [[opath[cut:] + [field], v]]}}
+      rejected = False
+      for _ in range(rng.randint(2, 6)):
+        k_ = rng.below(10)
+        if k_ < 4 or (not rejected and k_ < 6):
+          field = rng.choice(['opt', 'opt', 'o'])
+          v, err = bad_opt() if field == 'opt' else bad_o()
+          step = dict(write(field, v), notify=rng.chance(0.8), rej=err)
+          steps.append(step)
+          rejected = True
+          continue                      # refused: the shadow stays as it is
+        if k_ < 9:
+          # a mutation inside a value that is (still) in place
+          field = rng.choice(['opt', 'opt', 'o'])
+          key = rng.choice(['lr', 'n'] if field == 'opt' else ['k', 'm'])
+          v = rng.randint(0, 9) if key == 'n' else g.atom()
+          cut = rng.randint(0, len(opath) + 1)
+          full = opath + [field]
+          if rng.chance(0.5) or cut == len(full):
+            step = {'recv': full, 'call': {'name': 'setkey', 'key': key, 'v': v}}
+          else:
+            step = {'recv': full[:cut], 'call': {'name': 'rebind', 'pairs': [[full[cut:] + [key], v]]}}
+          step['notify'] = rng.chance(0.85)
+        else:
+          field = rng.choice(['opt', 'o'])
+          step = dict(write(field, opt_val() if field == 'opt' else inner_val()), notify=rng.chance(0.85))
+        steps.append(step)
+        mirror(shadow, json.loads(json.dumps(step)))
+      if not rejected:
+        continue
+      yield {'tree': t, 'steps': steps, 'rules': True}
+
   def model_request(self, case):
     if case.get('facts_only'):
       return None
     steps = []
     for s_ in case['steps']:
+      if 'scope' in s_:
+        steps.append(s_)
+        continue
       if 'read' in s_:
         steps.append({'read': [[p] + list(read_flags(names)) for p, names in s_['read'] if any(read_flags(names))]})
         continue
@@ -1250,6 +1598,10 @@ class C09(Prop):
         s_['notify'] = False                       # rebind(skip_notification=True): nobody is notified
       steps.append(s_)
     req = {'op': 'run', 'tree': annotate(case['tree']), 'steps': steps}
+    if case.get('forest'):
+      req['ext'] = annotate(case['ext'])
+    if case.get('rules'):
+      req['rules'] = RULES
     if case.get('react'):
       req['react'] = [[rid, rpath, rcall] for rid, rpath, rcall in case['react']]
       req['fuel'] = case.get('fuel', 0)
@@ -1257,12 +1609,105 @@ class C09(Prop):
       req['reads'] = 'chosen'
     return req
 
+  def impl_forest(self, case):
+    """Two trees and several threads. Scope steps enter / leave `pg.notify_on_change(v)` on the thread
+    they name; a call runs on the thread it names (`t`; default: the harness thread), on a node of
+    the tree it names (`in`). After every step every fact of every node of BOTH trees is read."""
+    import pyglove as pg
+    from harness.c08 import Worker
+    class Here:            # the harness thread itself
+      def __init__(self):
+        self.cms = []
+      def run(self, fn):
+        return fn()
+      def stop(self):
+        while self.cms:
+          self.cms.pop().__exit__(None, None, None)
+    _CLS.clear()
+    classes()
+    del LOG[:]
+    OBJ_IDS.clear()
+    del _KEEP[:]
+    REACT.clear()
+    RSTATE.update(root=None, fuel=0, depth=0)
+    workers = []
+    # the harness thread starts from "notifications enabled", whatever an earlier case left behind
+    with pg.notify_on_change(True):
+      try:
+        ext = build(case['ext'])
+        _EXT[0] = ext
+        root = build(case['tree'])
+        trees = {'tree': root, 'ext': ext}
+        workers = [Worker() for _ in range(case.get('threads', 0))] + [Here()]
+        for w in workers[:-1]:
+          def base(w=w):
+            cm = pg.notify_on_change(True)
+            cm.__enter__()
+            w.cms.append(cm)
+          w.run(base)
+        depth = [0] * len(workers)
+        read_all(root)
+        read_all(ext)
+        outs = []
+        for step in case['steps']:
+          ti = step.get('t', len(workers) - 1)
+          ti = ti if 0 <= ti < len(workers) - 1 else len(workers) - 1
+          worker = workers[ti]
+          which = 'ext' if step.get('in') == 'ext' else 'tree'
+          other = 'tree' if which == 'ext' else 'ext'
+          pre, pre_other = canon(trees[which]), canon(trees[other])
+          del LOG[:]
+          del BOUND[:]
+          RSTATE.update(depth=0, stack=[0], next=1, calls=[])
+          if 'scope' in step:
+            def scope_action(step=step, worker=worker, ti=ti):
+              if step['scope'] == 'enter':
+                cm = pg.notify_on_change(bool(step['v']))
+                cm.__enter__()
+                worker.cms.append(cm)
+                depth[ti] += 1
+              elif depth[ti] > 0:
+                worker.cms.pop().__exit__(None, None, None)
+                depth[ti] -= 1
+            worker.run(scope_action)
+            outs.append({'ok': True, 'err': None, 'events': [], 'reads': [], 'value': canon(root), 'pre': pre,
+                         'other': canon(trees[other]), 'pre_other': pre_other, 'stale': [], 'stale_other': [],
+                         'links': [], 'tagged': [], 'nested': [], 'bound': []})
+            continue
+          def call(step=step, which=which):
+            with contextlib.ExitStack() as stack:
+              if not step['notify']:
+                stack.enter_context(pg.notify_on_change(False))
+              try:
+                do_call(navigate(trees[which], step['recv']), step['call'])
+                return True, None
+              except Exception as e:    # pylint: disable=broad-except
+                return False, type(e).__name__
+          ok, err = worker.run(call)
+          events = canon_log(LOG)
+          bound = [b_ for b_ in BOUND if b_ is not None]      # None: the _on_bound of a value under construction
+          outs.append({'ok': ok, 'err': err, 'events': events, 'bound': bound,
+                       'stale': stale_facts(trees[which]), 'stale_other': stale_facts(trees[other]),
+                       'reads': leafmap_reads(trees[which]),
+                       'value': canon(trees[which]), 'pre': pre, 'other': canon(trees[other]), 'pre_other': pre_other,
+                       'links': [[w_, p_] for w_ in ('tree', 'ext') for p_ in bad_links(trees[w_])],
+                       'tagged': [], 'nested': []})
+        model = {'steps': [{'ok': o['ok'], 'events': o['events'], 'reads': o['reads'], 'value': o['value']} for o in outs]}
+        return {'model': model, 'steps': outs}
+      finally:
+        for w in workers:
+          w.stop()
+        _EXT[0] = None
+
   def impl(self, case):
     import pyglove as pg
+    if case.get('forest'):
+      return self.impl_forest(case)
     _CLS.clear()          # fresh classes for every case: whatever a class remembers starts empty
     classes()
     del LOG[:]
     OBJ_IDS.clear()
+    del _KEEP[:]
     root = build(case['tree'])
     REACT.clear()
     for rid, rpath, rcall in case.get('react', []):
@@ -1297,7 +1742,7 @@ class C09(Prop):
       events = canon_log(LOG)
       tagged = [dict(e) for e in LOG]
       nested = list(RSTATE['calls'])
-      bound = list(BOUND)
+      bound = [b_ for b_ in BOUND if b_ is not None]      # None: the _on_bound of a value under construction
       if chosen:
         outs.append({'ok': ok, 'err': err, 'events': events, 'reads': [], 'value': canon(root), 'pre': pre, 'stale': [],
                      'bound': bound, 'tagged': tagged, 'nested': nested})
@@ -1319,7 +1764,8 @@ class C09(Prop):
       outs.append({'ok': ok, 'err': err, 'events': events, 'reads': leafmap_reads(root) if with_reads else [],
                    'value': canon(root), 'pre': pre, 'stale': stale, 'bound': bound, 'tagged': tagged,
                    'nested': nested})
-    model = {'steps': [{'ok': o['ok'], 'events': o['events'], 'reads': o['reads'], 'value': o['value']} for o in outs]}
+    model = {'steps': [{'ok': o['ok'], 'events': o['events'], 'reads': o['reads'], 'value': o['value'],
+                        'err': o.get('err')} for o in outs]}
     return {'model': model, 'steps': outs}
 
   def impl_read(self, case, root, step, pre):
@@ -1355,6 +1801,9 @@ class C09(Prop):
       y = dict(y)
       y['reads'] = sorted([[p, sorted(m, key=lambda e: json.dumps(e)), sorted(ms, key=lambda e: json.dumps(e))]
                            for p, m, ms in y['reads']], key=lambda e: json.dumps(e))
+      if y.get('rej') and x.get('err') != y['rej']:
+        return 'step %d (%s): the model says the write is refused with %s, impl: %s' % (
+            i, json.dumps(case['steps'][i])[:200], y['rej'], x.get('err'))
       for fld in ('ok', 'value', 'events', 'reads'):
         if x[fld] != y[fld]:
           return 'step %d (%s) field %s: impl=%s model=%s' % (
@@ -1364,7 +1813,55 @@ class C09(Prop):
     return None
 
   # -- the property itself ------------------------------------------------------------------
+  def oracle_forest(self, case, out):
+    """Per call: the contract of the single-tree streams on the ADDRESSED tree, with `notify` = the
+    innermost scope of the CALLING thread (enabled when it is inside none) and the call's own wrapper;
+    nothing of the other tree changes, no node of it hears of the call, the memoised facts of both
+    trees are fresh, and every node of both trees still has the parent / path of its place."""
+    trees = {'tree': json.loads(json.dumps(case['tree'])), 'ext': json.loads(json.dumps(case['ext']))}
+    stacks = {}
+    nthreads = case.get('threads', 0)
+    for step, o in zip(case['steps'], out['steps']):
+      ti = step.get('t', nthreads)
+      ti = ti if 0 <= ti < nthreads else nthreads
+      if 'scope' in step:
+        st = stacks.setdefault(ti, [])
+        if step['scope'] == 'enter':
+          st.append(bool(step['v']))
+        elif st:
+          st.pop()
+        if o['value'] != o['pre'] or o['other'] != o['pre_other']:
+          return {'signature': 'scope-changed-tree', 'what': 'entering / leaving notify_on_change changed a tree'}
+        continue
+      which = 'ext' if step.get('in') == 'ext' else 'tree'
+      st = stacks.get(ti, [])
+      eff = dict(step, notify=bool(step['notify']) and (st[-1] if st else True))
+      name = step['call']['name']
+      if o['other'] != o['pre_other']:
+        return {'signature': 'changed-other-tree:' + name,
+                'what': '%s on a node of %s changed the other tree: %s -> %s' % (
+                    json.dumps(step['call'])[:150], which, json.dumps(o['pre_other'])[:200], json.dumps(o['other'])[:200])}
+      if o['links']:
+        return {'signature': 'links-broken:' + name,
+                'what': 'after %s on a node of %s the nodes %s do not have the parent / path of their place any more' % (
+                    json.dumps(step['call'])[:150], which, o['links'][:4])}
+      if o['stale_other']:
+        return {'signature': 'stale-other-tree:' + name,
+                'what': 'after %s on a node of %s the memoised facts %s of the OTHER tree differ from a fresh '
+                        'computation' % (json.dumps(step['call'])[:150], which, o['stale_other'][:3])}
+      others_scope = any(st_ and i != ti for i, st_ in stacks.items())
+      f = self.oracle_step(case, trees[which], eff, o)
+      if f:
+        if others_scope and eff['notify'] and f['signature'].split(':')[0] in ('missing-event', 'no-event', 'event-while-silent'):
+          f = dict(f, signature='other-thread-scope:' + f['signature'])
+        return f
+      if o['ok']:
+        mirror(trees[which], json.loads(json.dumps(eff)))
+    return None
+
   def oracle(self, case, out):
+    if case.get('forest'):
+      return self.oracle_forest(case, out)
     tree = json.loads(json.dumps(case['tree']))
     last = None
     for step, o in zip(case['steps'], out['steps']):
@@ -1671,11 +2168,13 @@ class C09(Prop):
   def nontrivial(self, case, out):
     t = case['tree']
     for s in case['steps']:
+      if 'scope' in s:
+        continue
       if 'read' in s:
         if case.get('reads') == 'chosen' and len(s['read']) < len(all_nodes(t)):
           return True            # a partial read: some memos are filled, others are not
         continue
-      if self.subscribing_ancestors(t, s['recv']):
+      if self.subscribing_ancestors(case['ext'] if s.get('in') == 'ext' else t, s['recv']):
         return True
     return False
 
@@ -1687,7 +2186,20 @@ class C09(Prop):
       h.append('re-entrant handlers: fuel %d' % case.get('fuel', 0))
       for o in out['steps']:
         h.append('nested-calls:%d' % min(len(o.get('nested', [])), 6))
+    if case.get('forest'):
+      h.append('forest:threads=%d' % case.get('threads', 0))
+      if has_ref(case['tree']):
+        h.append('forest:ref-items')
     for s, o in zip(case['steps'], out['steps']):
+      if 'scope' in s:
+        h.append('op:scope-%s(%s)' % (s['scope'], s.get('v')))
+        continue
+      if s.get('rej'):
+        h.append('refused-write:' + s['rej'])
+      if s.get('in') == 'ext':
+        h.append('in:ext')
+      if 't' in s:
+        h.append('by-thread:%s' % ('harness' if s['t'] >= case.get('threads', 0) else 'worker'))
       if 'read' in s:
         h.append('op:read')
         h.append('read-nodes:%d' % min(len(s['read']), 5))
@@ -1724,6 +2236,8 @@ class C09(Prop):
         c['steps'] = steps[:i] + steps[i + 1:]
         yield c
     for i, s in enumerate(steps):
+      if 'scope' in s:
+        continue
       if 'read' in s:
         if len(s['read']) > 1:
           for j in range(len(s['read'])):
